@@ -288,14 +288,16 @@ Theorem C10_rsmi_graph_mol_ok :
 Proof. intros m H. split; [exact (rsmi_graph_mol_ok m H)|exact (rsmi_graph_std_free m H)]. Qed.
 Print Assumptions C10_rsmi_graph_mol_ok.
 
-(** KNOWN FINDING graph_to_smi:preserve_atom_maps:bare-hydrogen-dropped (code kept as it is): with a non-empty preserve
-    list graph_to_smi drops hydrogens that have no heavy neighbour — H2 (total hydrogen count 2) is handed to RDKit as the
-    empty molecule, while without a preserve list it is not. *)
-Theorem C10_preserve_bare_h_refuted :
-  exists (g : gr) (pres : list Z), gwfb g = true /\ total_h g = 2 /\
-    graph_to_smi_mol g [] <> Some ([], []) /\ graph_to_smi_mol g pres = Some ([], []).
-Proof. exact preserve_bare_h_refuted. Qed.
-Print Assumptions C10_preserve_bare_h_refuted.
+(** implicit_hydrogen / graph_to_smi with a preserve list, repaired code 3ba7a77 (finding
+    graph_to_smi:preserve_atom_maps:bare-hydrogen-dropped, fixed): a hydrogen all of whose neighbours are hydrogens (H2, H+, a
+    lone H) is an atom of implicit_hydrogen(graph, preserve) whatever the preserve list — for every networkx graph.  The code as
+    it was is kept as implicit_hydrogen_old; with it H2 was handed to RDKit as the empty molecule
+    (proof/C10_Select.v preserve_bare_h_old_refuted). *)
+Theorem C10_implicit_hydrogen_keeps_bare_h :
+  forall (g : gr) (l : list Z) (n : N), gwfb g = true ->
+    is_H g n = true -> (forall w, adj g n w <> None -> is_H g w = true) -> has_node (implicit_hydrogen g l) n = true.
+Proof. exact implicit_hydrogen_keeps_bare. Qed.
+Print Assumptions C10_implicit_hydrogen_keeps_bare_h.
 
 (** NXToGML.transform(attributes=[...]): with the default ["charge"] the generalised writer of the model is the writer the
     round-trip theorems are about. *)
@@ -432,7 +434,7 @@ Print Assumptions C10_rsmi_to_its_total_h.
     hydrogen atom the explicit_hydrogen flag is irrelevant: both settings hand RDKit graph_to_mol r and graph_to_mol p.
     (ii) Otherwise the list of preserved atom maps is exactly the atom maps of the hydrogens of the centre, in node order
     (a hydrogen without the key makes the call fail: rc_h_maps = None), and (iii) on graphs that carry the keys
-    implicit_hydrogen subscripts, the preserve path is the function C10_preserve_bare_h_refuted speaks about. *)
+    implicit_hydrogen subscripts, the preserve path is the lenient function graph_to_smi_mol of model/C10_Model.v. *)
 Theorem C10_graph_to_rsmi_flags :
   (forall (r p its : gr) (explicit_h : bool), no_H (get_rc its) = true ->
      graph_to_rsmi_mols r p its explicit_h = Some (graph_to_mol r, graph_to_mol p)) /\
@@ -529,3 +531,14 @@ Theorem C10_sync_side_lookups :
                end).
 Proof. exact sync_side_lookups. Qed.
 Print Assumptions C10_sync_side_lookups.
+
+(** The correspondence also compares the LAST INTERMEDIATE STATE of NXToGML.transform — the three graphs and the changed-node list
+    handed to _rule_grammar, after h_to_explicit of the context and after the reindex relabelling (observed by a spy on the real
+    call).  The writers the theorems above speak about are _rule_grammar of exactly that state. *)
+Theorem C10_writer_is_rule_grammar_of_mid :
+  (forall (Lg Rg Kg : gr) (reindex explicit_h : bool),
+     nx_to_gml Lg Rg Kg reindex explicit_h = rule_grammar (nx_to_gml_mid Lg Rg Kg reindex explicit_h) explicit_h) /\
+  (forall (its : gr) (core reindex explicit_h : bool),
+     its_to_gml its core reindex explicit_h = rule_grammar (its_to_gml_mid its core reindex explicit_h) explicit_h).
+Proof. split; [exact nx_to_gml_mid_spec|exact its_to_gml_mid_spec]. Qed.
+Print Assumptions C10_writer_is_rule_grammar_of_mid.
